@@ -494,7 +494,92 @@ fn run_header_writeback(ctx: &mut Ctx) {
     }
 }
 
+/// "bodies shorter than their declared length are rejected" at the level of the composed parsers:
+/// a certificate / secret key / detached signature cut inside the BODY of any of its packets is an
+/// error for `from_bytes` and an `Err` item for `from_bytes_many`, never the object minus that
+/// packet (oracle only; packet ends are taken from the framing walk of `real_stream`'s reader)
+fn run_truncated_composed(ctx: &mut Ctx) {
+    use pgp::composed::{Deserializable, DetachedSignature, SignedPublicKey, SignedSecretKey};
+    use pgp::ser::Serialize;
+    use rand::SeedableRng;
+    let mut rng = rand_chacha::ChaCha8Rng::seed_from_u64(1717);
+    let k4 = crate::keys::ed25519_x25519(&mut rng, pgp::types::KeyVersion::V4);
+    let k6 = crate::keys::ed25519_x25519(&mut rng, pgp::types::KeyVersion::V6);
+    let mut docs: Vec<(&str, Vec<u8>)> = Vec::new();
+    for (n, k) in [("v4", &k4), ("v6", &k6)] {
+        if let Ok(b) = k.to_public_key().to_bytes() {
+            docs.push((if n == "v4" { "public key v4" } else { "public key v6" }, b));
+        }
+        if let Ok(b) = k.to_bytes() {
+            docs.push((if n == "v4" { "secret key v4" } else { "secret key v6" }, b));
+        }
+    }
+    if let Ok(sig) = DetachedSignature::sign_binary_data(&mut rng, &k4.primary_key, &pgp::types::Password::empty(), pgp::crypto::hash::HashAlgorithm::Sha256, &b"data"[..]) {
+        if let Ok(b) = sig.to_bytes() {
+            docs.push(("detached signature", b));
+        }
+    }
+    for (what, doc) in &docs {
+        // packet extents: (start, body_start, end)
+        let mut extents: Vec<(usize, usize, usize)> = Vec::new();
+        {
+            let pos = std::rc::Rc::new(std::cell::Cell::new(0usize));
+            let mut parser = PacketParser::new(CountSlice { data: doc, pos: pos.clone() });
+            loop {
+                let start = pos.get();
+                match parser.next_ref() {
+                    Some(Ok(mut body)) => {
+                        let body_start = pos.get();
+                        let mut v = Vec::new();
+                        if body.read_to_end(&mut v).is_err() {
+                            break;
+                        }
+                        drop(body);
+                        extents.push((start, body_start, pos.get()));
+                    }
+                    _ => break,
+                }
+            }
+        }
+        for (pi, &(start, body_start, end)) in extents.iter().enumerate() {
+            let stride = if ctx.thorough() { 1 } else { ((end - body_start) / 6).max(1) };
+            let mut cuts: Vec<usize> = (body_start..end).step_by(stride).collect();
+            cuts.push(end - 1);
+            cuts.dedup();
+            for cut in cuts {
+                if cut < body_start || cut >= end || body_start == end {
+                    continue;
+                }
+                let part = &doc[..cut];
+                let r = guarded(|| {
+                    let one = match *what {
+                        "detached signature" => DetachedSignature::from_bytes(part).is_ok(),
+                        w if w.starts_with("secret") => SignedSecretKey::from_bytes(part).is_ok(),
+                        _ => SignedPublicKey::from_bytes(part).is_ok(),
+                    };
+                    let many_clean = match *what {
+                        "detached signature" => DetachedSignature::from_bytes_many(part).map(|it| it.take(8).all(|x| x.is_ok())).unwrap_or(false),
+                        w if w.starts_with("secret") => SignedSecretKey::from_bytes_many(part).map(|it| it.take(8).all(|x| x.is_ok())).unwrap_or(false),
+                        _ => SignedPublicKey::from_bytes_many(part).map(|it| it.take(8).all(|x| x.is_ok())).unwrap_or(false),
+                    };
+                    (one, many_clean)
+                });
+                let input = format!("{what}: packet #{pi} spans {start}..{end} (body from {body_start}), input cut at {cut}; doc={}", hx(doc));
+                match r {
+                    Ok((one, many_clean)) => {
+                        ctx.oracle("truncated_body_rejected", "Deserializable::from_bytes over a packet whose body is shorter than declared", &input, !one, "accepted");
+                        ctx.oracle("truncated_body_rejected", "Deserializable::from_bytes_many over a packet whose body is shorter than declared", &input, !many_clean, "every item Ok");
+                    }
+                    Err(p) => ctx.oracle("truncated_body_rejected", "Deserializable::from_bytes", &input, false, &format!("panic {p}")),
+                }
+                ctx.stat("truncated_composed");
+            }
+        }
+    }
+}
+
 pub fn run(ctx: &mut Ctx) {
+    run_truncated_composed(ctx);
     run_header_writeback(ctx);
     run_esk_leftovers(ctx);
     run_from_file_lengths(ctx);
